@@ -63,7 +63,7 @@ pub fn check_shape(mode: GameMode, pts: &[PathControlPoint], bufs: &mut CurveBuf
     let nat = Curve::new(mode, pts, None, bufs);
     acc.evals += 1;
     acc.transitions += 1;
-    let mut viol = |class: &str, msg: String, len: Option<f64>, acc: &mut Acc| {
+    let viol = |class: &str, msg: String, len: Option<f64>, acc: &mut Acc| {
         acc.violation(Violation::new(
             class,
             format!("{mode:?} {} len={len:?}: {msg}", points_json(pts)),
